@@ -303,7 +303,8 @@ def run(ctx: core.Ctx) -> None:
     for kind, depth in (("single", depth_s), ("ideal", depth_i)):
         behs = export_behaviours(ctx, kind, depth)
         # 7, 8: the frac-face pressure held as a 0-d / 1-element array (what an interpolator hands back)
-        replay_histories(ctx, kind, behs, variants + ([7, 8] if kind == "ideal" or not ctx.quick else []), OWN_CLAUSES)
+        # 9: a uniform grid A and non-uniform grids B, C that start with A's first step
+        replay_histories(ctx, kind, behs, variants + ([7, 8, 9] if kind == "ideal" or not ctx.quick else []), OWN_CLAUSES)
     if not ctx.quick:
         # deeper single-phase histories: random behaviours of depth 6 from TLC's simulation mode
         behs = export_sampled(ctx, "single", 6, 1000)
